@@ -506,9 +506,14 @@ func mkOps(custom, quick bool) []opDef {
 
 func signature(what string) string {
 	w := what
-	switch {
-	case strings.Contains(w, "prepare-panics"):
+	// the known finding is the ACCOUNTING of an entry whose prepare slot panicked (pass not counted / callbacks
+	// not made / gauge); anything else that happens at such an entry (a panic reaching the caller, another
+	// entry's data overwritten, ...) keeps its own class
+	if strings.Contains(w, "prepare-panics") && !strings.Contains(w, "panic reached the caller") && !strings.Contains(w, "carries args") &&
+		!strings.Contains(w, "reports error") && !strings.Contains(w, "context now describes another") {
 		return "C01:prepare-slot-panic-unaccounted"
+	}
+	switch {
 	case strings.Contains(w, "panic reached the caller"):
 		return "C01:panic-escapes"
 	case strings.Contains(w, "carries args"):
